@@ -35,6 +35,48 @@ var (
 	traces   = []string{"    [main.f] f.go:12", "    [main.f] f.go:12\n    [main.g] g.go:3", "", "one\ntwo\nthree", "    [x.y] z.go:1\n  Caused by: boom"}
 )
 
+// stack texts for the `s` attribute (a real errs.stackValue over a scripted StackError): every white-space rune that
+// unicode.IsSpace accepts, look-alikes it does not accept, invalid UTF-8, CR LF, empty and blank lines.
+var (
+	svSpaces   = []string{" ", " ", "\t", "\v", "\f", "\r", "\u0085", "\u00a0", "\u1680", "\u2000", "\u2001", "\u2005", "\u200a", "\u2028", "\u2029", "\u202f", "\u205f", "\u3000", "    "}
+	svNotSpace = []string{"\u200b", "\ufeff", "\u180e", "\u2060", "\xc2", "\xe2\x80", "\xe2", "\x85", "\xa0", "\x80", "\xff", "\x1c", "\x1f", "\x00", "\xe1\x9a", "\xe3\x80"}
+	svBodies   = []string{"[main.f] f.go:12", "[main.f] f.go:12", "a b", "a  b", "x", "", "[", "]", "é", "Caused by: boom", "a\u00a0b", "日本", "a\tb"}
+)
+
+func svTrace(r *hx.Rng) string {
+	if r.Chance(1, 4) {
+		return hx.Pick(r, traces)
+	}
+	var sb strings.Builder
+	ws := func() {
+		for i, k := 0, r.Intn(3); i < k; i++ {
+			sb.WriteString(hx.Pick(r, svSpaces))
+		}
+	}
+	odd := func() {
+		if r.Chance(1, 6) {
+			sb.WriteString(hx.Pick(r, svNotSpace))
+		}
+	}
+	for i, k := 0, r.Intn(5); i < k; i++ {
+		if i > 0 {
+			if r.Chance(1, 8) {
+				sb.WriteByte('\r')
+			}
+			sb.WriteByte('\n')
+		}
+		ws()
+		odd()
+		sb.WriteString(hx.Pick(r, svBodies))
+		odd()
+		ws()
+	}
+	if r.Chance(1, 10) {
+		sb.WriteByte('\n')
+	}
+	return sb.String()
+}
+
 func hexs(s string) string { return hx.Hex([]byte(s)) }
 
 func stampTok(t time.Time) string {
@@ -131,6 +173,12 @@ func genNode(r *hx.Rng, depth int) *node {
 		return n
 	case c < 17:
 		return &node{kind: 'v', inner: genNode(r, depth+1)}
+	case c >= 19: // the library's own stackValue over a scripted stack text
+		key := "stack_trace"
+		if r.Chance(1, 5) {
+			key = hx.Pick(r, keys)
+		}
+		return &node{kind: 's', key: key, trace: svTrace(r)}
 	default:
 		key := "stack_trace"
 		if r.Chance(1, 4) {
@@ -168,7 +216,7 @@ func (n *node) norm() *node {
 	case 'k':
 		return &node{kind: 'k', key: n.key, trace: n.trace, inner: n.inner.norm()}
 	}
-	return n
+	return n // (`s`, leaves, the empty attribute)
 }
 
 func (n *node) words(out []string) []string { return n.wordsIn(out, "") }
@@ -201,6 +249,8 @@ func (n *node) wordsIn(out []string, outer string) []string {
 			outer = "*main.carrier"
 		}
 		return n.inner.wordsIn(append(out, "k", hexs(n.key), hexs(n.trace)), outer)
+	case 's':
+		return append(out, "s", hexs(n.key), hexs(n.trace))
 	}
 	return out
 }
@@ -496,15 +546,25 @@ func (g *gen) one() {
 		if r.Chance(1, 12) {
 			k = hx.Pick(r, []int{16, 17, 18, 33, 65}) // many children
 		}
+		nest := r.Chance(1, 3) // some children are fan-out handlers themselves
 		for i := 0; i < k; i++ {
 			x := hx.Pick(r, tl)
+			if nest && r.Bool() {
+				x = hx.Pick(r, g.hs)
+			}
 			// two children on one buffered sink race with the delivery goroutine inside a single Handle: whether the
 			// second send finds room is a matter of scheduling, so that shape is left to `stress`
-			if g.buffered[x.sinks[0]] > 0 {
-				if usedBuf[x.sinks[0]] {
-					continue
+			clash := false
+			for _, sk := range x.sinks {
+				clash = clash || (g.buffered[sk] > 0 && usedBuf[sk])
+			}
+			if clash || len(m.sinks)+len(x.sinks) > 80 {
+				continue
+			}
+			for _, sk := range x.sinks {
+				if g.buffered[sk] > 0 {
+					usedBuf[sk] = true
 				}
-				usedBuf[x.sinks[0]] = true
 			}
 			w = append(w, x.name)
 			m.sinks = append(m.sinks, x.sinks...)
